@@ -85,10 +85,11 @@ Record state := mkS {
   s_up : Z; s_comp : Z; s_left : Z;   (* DownloadInfo figures (adjusted: total - baseline) *)
   log : list req;          (* ANNOUNCE requests handed to the workers, newest first *)
   tsc : option Z;          (* m_task_scrape: scheduled time in us *)
-  slog : list (Z * nat);   (* scrape requests handed to the workers (time, tracker), newest first *)
+  slog : list (Z * tracker); (* scrape requests handed to the workers (time, tracker as seen then), newest first *)
   hint : list nat;         (* which trackers the implementation contacted in the op about to run (see [pick_hinted]) *)
-  pend : option (nat * (bool * bool))  (* a worker's result callback queued for the main thread and not yet
+  pend : option (nat * (bool * bool)); (* a worker's result callback queued for the main thread and not yet
                                  run: (tracker, (success?, scrape?)) -- at most one is kept queued *)
+  pmark : nat              (* ghost: length of [log] when that callback was queued *)
 }.
 
 (* ---------------------------------------------------------------- TrackerState *)
@@ -207,14 +208,15 @@ Definition now_s (s : state) : Z := now s / usec.
 
 Definition ceil_seconds (t : Z) : Z := ((t + usec - 1) / usec) * usec.
 
-Definition set_trs (s : state) l := mkS l (fl s) (tmo s) (now s) (s_up s) (s_comp s) (s_left s) (log s) (tsc s) (slog s) (hint s) (pend s).
-Definition set_fl (s : state) f := mkS (trs s) f (tmo s) (now s) (s_up s) (s_comp s) (s_left s) (log s) (tsc s) (slog s) (hint s) (pend s).
-Definition set_tmo (s : state) t := mkS (trs s) (fl s) t (now s) (s_up s) (s_comp s) (s_left s) (log s) (tsc s) (slog s) (hint s) (pend s).
-Definition set_now (s : state) n := mkS (trs s) (fl s) (tmo s) n (s_up s) (s_comp s) (s_left s) (log s) (tsc s) (slog s) (hint s) (pend s).
-Definition set_figs (s : state) up comp lft := mkS (trs s) (fl s) (tmo s) (now s) up comp lft (log s) (tsc s) (slog s) (hint s) (pend s).
-Definition set_tsc (s : state) t := mkS (trs s) (fl s) (tmo s) (now s) (s_up s) (s_comp s) (s_left s) (log s) t (slog s) (hint s) (pend s).
-Definition set_pend (s : state) p := mkS (trs s) (fl s) (tmo s) (now s) (s_up s) (s_comp s) (s_left s) (log s) (tsc s) (slog s) (hint s) p.
-Definition set_hint (s : state) h := mkS (trs s) (fl s) (tmo s) (now s) (s_up s) (s_comp s) (s_left s) (log s) (tsc s) (slog s) h (pend s).
+Definition set_trs (s : state) l := mkS l (fl s) (tmo s) (now s) (s_up s) (s_comp s) (s_left s) (log s) (tsc s) (slog s) (hint s) (pend s) (pmark s).
+Definition set_fl (s : state) f := mkS (trs s) f (tmo s) (now s) (s_up s) (s_comp s) (s_left s) (log s) (tsc s) (slog s) (hint s) (pend s) (pmark s).
+Definition set_tmo (s : state) t := mkS (trs s) (fl s) t (now s) (s_up s) (s_comp s) (s_left s) (log s) (tsc s) (slog s) (hint s) (pend s) (pmark s).
+Definition set_now (s : state) n := mkS (trs s) (fl s) (tmo s) n (s_up s) (s_comp s) (s_left s) (log s) (tsc s) (slog s) (hint s) (pend s) (pmark s).
+Definition set_figs (s : state) up comp lft := mkS (trs s) (fl s) (tmo s) (now s) up comp lft (log s) (tsc s) (slog s) (hint s) (pend s) (pmark s).
+Definition set_tsc (s : state) t := mkS (trs s) (fl s) (tmo s) (now s) (s_up s) (s_comp s) (s_left s) (log s) t (slog s) (hint s) (pend s) (pmark s).
+Definition set_pend (s : state) p := mkS (trs s) (fl s) (tmo s) (now s) (s_up s) (s_comp s) (s_left s) (log s) (tsc s) (slog s) (hint s) p (pmark s).
+Definition set_pmark (s : state) m := mkS (trs s) (fl s) (tmo s) (now s) (s_up s) (s_comp s) (s_left s) (log s) (tsc s) (slog s) (hint s) (pend s) m.
+Definition set_hint (s : state) h := mkS (trs s) (fl s) (tmo s) (now s) (s_up s) (s_comp s) (s_left s) (log s) (tsc s) (slog s) h (pend s) (pmark s).
 
 (* TrackerController::update_timeout(seconds) *)
 Definition update_timeout (sec : Z) (s : state) : state :=
@@ -243,7 +245,9 @@ Definition current_send_event (f : flags) : event :=
 (* [t] is the tracker as the caller's iterator sees it (the code passes the handle; ids are unique
    and nothing touches that tracker between the caller's look and this call). *)
 Definition send_event (sr : src) (t : tracker) (ev : event) (s : state) : state :=
-  if negb (is_usable t) then s
+  (* "if (find(tracker) == end()) throw internal_error(...)": the tracker must be in the list *)
+  if negb (existsb (Nat.eqb (t_id t)) (map t_id (trs s))) then s
+  else if negb (is_usable t) then s
   else if t_busy t && (event_eqb (t_ev t) ev || (negb (event_eqb (t_ev t) EvScrape) && event_eqb ev EvNone)) then s
   else
     (* Manager::send_event -> tracker thread: mark_starting_request; worker->send_event, whose first act
@@ -253,7 +257,8 @@ Definition send_event (sr : src) (t : tracker) (ev : event) (s : state) : state 
         (mkR (now s) (t_id t) ev (Z.max (s_up s) 0) (Z.max (s_comp s) 0) (s_left s) (t_busy t) sr t (fl s) (trs s) :: log s)
         (tsc s) (slog s)
         (match hint s with h :: r => if Nat.eqb h (t_id t) then r else hint s | [] => [] end)
-        (match pend s with Some (i, _) => if Nat.eqb i (t_id t) then None else pend s | None => None end).
+        (match pend s with Some (i, _) => if Nat.eqb i (t_id t) then None else pend s | None => None end)
+        (pmark s).
 
 (* ---------------------------------------------------------------- controller *)
 
@@ -527,7 +532,7 @@ Definition worker_done (id : nat) (r : reply) (s : state) : state :=
   match pend s, find_id (trs s) id with
   | None, Some t =>
     if negb (t_busy t) then s
-    else set_pend (set_trs s (upd (trs s) id (worker_upd r))) (Some (id, (reply_ok r, event_eqb (t_ev t) EvScrape)))
+    else set_pmark (set_pend (set_trs s (upd (trs s) id (worker_upd r))) (Some (id, (reply_ok r, event_eqb (t_ev t) EvScrape)))) (length (log s))
   | _, _ => s
   end.
 
@@ -553,7 +558,7 @@ Definition send_scrape (t : tracker) (s : state) : state :=
   else if negb (t_scr t) then s
   else if now s <? (t_sct t + scrape_min_gap) * usec then s
   else mkS (upd (trs s) (t_id t) (fun x => mkT (t_id x) (t_group x) (t_en x) true EvScrape (t_sc x) (t_fc x) (t_stl x) (t_ftl x) (t_ni x) (t_mi x) (t_scr x) (t_sct x)))
-           (fl s) (tmo s) (now s) (s_up s) (s_comp s) (s_left s) (log s) (tsc s) ((now s, t_id t) :: slog s) (hint s) (pend s).
+           (fl s) (tmo s) (now s) (s_up s) (s_comp s) (s_left s) (log s) (tsc s) ((now s, t) :: slog s) (hint s) (pend s) (pmark s).
 
 (* TrackerController::do_scrape: per group without any active request, the first scrapable usable tracker *)
 Fixpoint scrape_groups (fuel : nat) (rest : list tracker) (s : state) : state :=
@@ -716,7 +721,7 @@ Definition figs_for (s : state) (o : op) : Z * Z * Z :=
 Definition no_flags := mkF false false false false false false false false.
 
 Definition init (t0 : Z) (groups : list (nat * bool)) : state :=
-  mkS (insert_all O groups []) no_flags None t0 0 0 0 [] None [] [] None.
+  mkS (insert_all O groups []) no_flags None t0 0 0 0 [] None [] [] None O.
 
 Definition run (s : state) (ops : list op) : state := fold_left step ops s.
 
@@ -743,3 +748,10 @@ Fixpoint pending_run (ev : event) (s : state) (ops : list op) : Prop :=
   | o :: rest => ~ clears ev s o /\ pending_run ev (step s o) rest
   end.
 
+
+(* the controller flag that holds a pending 'started' / 'completed' *)
+Definition pend_flag (ev : event) (f : flags) : bool :=
+  match ev with EvStarted => f_start f | EvCompleted => f_completed f | _ => false end.
+
+(* the newest logged request to tracker [id] (the log is newest first) *)
+Definition newest_for (id : nat) (l : list req) : option req := find (fun r => Nat.eqb (r_id r) id) l.
